@@ -227,7 +227,10 @@ pub fn worker_main(args: &[String]) -> i32 {
     }
     let mut out = WorkerOut::default();
     let mut seen_signatures: BTreeSet<String> = BTreeSet::new();
-    let mut r = widx;
+    // (self-tests may shift the window of run indices, e.g. past the enumerated histories of C11)
+    let first_run: u64 = std::env::var("SIMPLC_FIRST_RUN").ok().and_then(|s| s.parse().ok()).unwrap_or(0);
+    let mut r = widx + first_run;
+    let nruns = nruns + first_run;
     while r < nruns {
         let trace = generate(&prop, thorough, r, seed);
         let _ = std::fs::write("/inflight.json", serde_json::to_vec(&json!({"run_index": r, "trace": trace})).unwrap());
